@@ -6,7 +6,7 @@ NOT_APPLICABLE = {}
 
 add("C18", "exhaustive state enumeration + proptest over seeds/lengths/intervals; range and permutation oracles",
     "Thorough tier enumerates all 2^31-2 generator states for generate() on 12 intervals (incl. degenerate ones and widths beyond f32::MAX) and for the shuffle index on 7 lengths (exhaustive for those), "
-    "quick enumerates both ends of the state space plus a seed-offset progression; seeds up to u64::MAX, interval classes, shuffle lengths/duplicates (rarely > 2^24 elements) and Tensor::random shapes (incl. zero-sized dimensions) are sampled with proptest, as are generator objects that serve two intervals in a row and Tensor::random calls after a refused request. "
+    "quick enumerates both ends of the state space plus a seed-offset progression; seeds up to u64::MAX, interval classes, shuffle lengths/duplicates (rarely > 2^24 elements) and Tensor::random shapes (incl. zero-sized dimensions) are sampled with proptest, as are generator objects that serve two intervals or two shuffles in a row and Tensor::random calls after a refused request. "
     "Exploration level: no claim beyond the enumerated/sampled domain.",
     "Trusts the harness's modular-inverse computation of the seed that leads to a given state; Tensor::random is clock-seeded so only seed-independent assertions are made.",
     "DESIGN.md 4/C18")
@@ -27,11 +27,11 @@ add("C07", "exhaustive enumeration of all 2^32 single-precision bit patterns (th
     "Tolerances: 4 ulp (forward) / 8 ulp (backward) of the f64 definition plus an absolute term (f32 min-normal where exp/cosh overflow flushes to 0, 1.8e-7 for sigmoid' cancellation); ReLU-family derivative at +-0 may be either one-sided value.",
     "DESIGN.md 4/C07")
 add("C14", "proptest over shapes/targets/contents against an explicit row-major index model; round-trip and refusal oracles",
-    "1 000 000 (thorough 100 000 000) generated (operation, source shape, target shape, contents) cases incl. size-1 axes, non-square shapes, unequal counts, reshape chains via vectors, one case in 40 with >= 16384 elements, contents incl. signed zeros, subnormals and infinities; element [c][h][w] compared bitwise with position c*H*W+h*W+w, recorded shape vs nested lengths, there-and-back identity, unequal counts must panic. Run twice: harness with debug assertions + overflow checks, and (different seed) a build without them.",
+    "1 000 000 (thorough 100 000 000) generated (operation, source shape, target shape, contents) cases incl. size-1 axes, non-square shapes, unequal counts, reshape chains via vectors, one case in 40 with >= 16384 elements, contents incl. signed zeros, subnormals, infinities and NaN; element [c][h][w] compared bitwise with position c*H*W+h*W+w, recorded shape vs nested lengths, there-and-back identity, unequal counts must panic. Run twice: harness with debug assertions + overflow checks, and (different seed) a build without them.",
     "vector->vector reshape of another length is not required to be refused (the statement names vector<->3-D and 3-D<->3-D).",
     "DESIGN.md 4/C14")
 add("C15", "proptest over operation x rank x shape x content classes against a scalar IEEE reference; shape-mismatch refusal oracle",
-    "2 000 000 (thorough 200 000 000) generated cases over 12 operations, ranks 1-4 and nested lists, signed zeros / subnormals / mixed magnitudes, axes up to 300, matrices with both extents in 17..70, scalars one ulp from 0 / +-1 / powers of two; add/sub/mul/div/outer/transpose/clamp bitwise, Hadamard within 2 ulp of the exact product, mean and dot within a summation bound; mismatched operands must panic. Run twice: harness with debug assertions + overflow checks, and (different seed) a build without them.",
+    "2 000 000 (thorough 200 000 000) generated cases over 12 operations, ranks 1-4 and nested lists, signed zeros / subnormals / mixed magnitudes, axes up to 300, matrices with both extents in 17..70, scalars one ulp from 0 / +-1 / powers of two; add/sub/mul/div/outer/transpose/clamp bitwise, Hadamard within 2 ulp of the exact product, mean and dot within a summation bound (means of up to four operands: a correctly rounded quotient of some single-precision sum); mismatched operands must panic. Run twice: harness with debug assertions + overflow checks, and (different seed) a build without them.",
     "dot() and product() are not required to refuse mismatched operands (the statement lists refusal for the in-place element-wise operations).",
     "DESIGN.md 4/C15")
 
@@ -48,7 +48,7 @@ add("C04", "proptest over (network, optimizer, objective, N, B, E, data); oracle
     "The replay shares the per-sample gradient with the library on purpose (C01 owns it); feedback blocks and dropout are excluded here (C10 / C09).",
     "DESIGN.md 4/C04")
 add("C05", "metamorphic schedule exploration: dedicated rayon pools with 1..48 threads x injected delay plans x repetitions, fresh network per run; bitwise comparison with the 1-thread run",
-    "100 (thorough 2 000) generated networks with every layer kind, dropout, feedback blocks with skips, skip connections with shared sources, x 6 (11) schedules each (one case in five evaluates 1e-39-scaled inputs on a bias-free network so that a floating-point mode left on worker threads shows); training with validation, validate() and predict_batch() over > 64 inputs must be bit-identical to the 1-thread run of a freshly built identical network. Every third schedule lets the pool serve a decoy network first; one case in six puts a NaN into one evaluation input. Explores schedule classes, not interleavings.",
+    "100 (thorough 2 000) generated networks with every layer kind, dropout, feedback blocks with skips, skip connections with shared sources, x 6 (11) schedules each (one case in five evaluates 1e-39-scaled inputs on a bias-free network so that a floating-point mode left on worker threads shows); training with validation, validate() and predict_batch() over > 64 inputs must be bit-identical to the 1-thread run of a freshly built identical network. Every third schedule lets the pool serve a decoy network first; loop connections over dense layers with dropout occur; one case in six puts a NaN into one evaluation input. Explores schedule classes, not interleavings.",
     "rayon's scheduler is not owned: thread counts, repetitions and delays at the per-sample hooks are varied; decides the realistic mechanisms (order-dependent float reduction, unordered collection, per-instance hash order), cannot exclude a dependence needing one particular interleaving.",
     "DESIGN.md 4/C05")
 add("C08", "proptest over raw layer-request sequences next to an independent shape model; Display-text announcement parsing; identity-network round trip across flat<->spatial transitions",
@@ -68,11 +68,11 @@ add("C11", "proptest over block specifications; oracle = statement-derived model
     "The model trusts the single-layer forwards (C02).",
     "DESIGN.md 4/C11")
 add("C12", "proptest over (network, objective, tolerance, N) with targets derived from the predictions; oracle recomputed from public pieces with interval semantics at the tolerance edge",
-    "20 000 (thorough 1 000 000) cases with N in {1, 2, 63, 64, 65, 127, 128, 129, 200} or random <= 300, optional skip connections, output activation optionally changed with set_activation: validate loss = mean objective of predict within the summation bound, accuracy inside the interval allowed by the stated rule, predict_batch[i] == predict(x_i) bitwise and in order, predict == last activation of forward; soft target distributions, fine input sweeps, up to 130 outputs, and a second validate call with fewer samples on the same network; run inside 3-thread rayon pools.",
+    "20 000 (thorough 1 000 000) cases with N in {1, 2, 63, 64, 65, 127, 128, 129, 200} or random <= 300, optional skip connections, output activation optionally changed with set_activation: validate loss = mean objective of predict within the summation bound, accuracy inside the interval allowed by the stated rule, predict_batch[i] == predict(x_i) bitwise and in order, predict == last activation of forward; soft target distributions, fine input sweeps, up to 130 outputs, a second validate call with fewer samples on the same network, and spatial samples handed over flat; run inside 3-thread rayon pools.",
     "Components at exactly the tolerance and arg-max ties may count either way.",
     "DESIGN.md 4/C12")
 add("C13", "history-invariant checking over generated exact loss trajectories (dyadic linear model), incl. plateaus with bit-equal losses",
-    "300 000 (thorough 20 000 000) training set-ups producing falling / rising / fall-then-rise / oscillating / plateau trajectories, tolerance 1-6, budget 1-14, with and without validation data, print settings, one-ulp-per-epoch trajectories; history lengths, never-continues-past and stops-only-if conditions, and weight equality with a validation-free run of exactly n epochs; one case in six follows an earlier learn() call on the same network object.",
+    "300 000 (thorough 20 000 000) training set-ups producing falling / rising / fall-then-rise / oscillating / plateau trajectories, tolerance 1-6, budget 1-14, with and without validation data, print settings, one-ulp-per-epoch trajectories; history lengths, never-continues-past and stops-only-if conditions, and weight equality with a validation-free run of exactly n epochs; one case in six follows an earlier learn() call on the same network object; one in eight uses the KL-divergence (negative losses).",
     "The stopping window is read as: the last `tolerance` recorded losses form a strictly increasing sequence.",
     "DESIGN.md 4/C13")
 add("C16", "proptest over networks + connect() call sequences + accumulations; acceptance model, hand-composed forward model, and the C01 derivative oracle with skip connections in the f64 reference network",
